@@ -36,7 +36,8 @@ def load_cases():
     return cases
 
 
-def make_scratch(repo="/repo"):
+def make_scratch(repo=None):
+    repo = repo or os.environ.get("SELFTEST_REPO", "/repo")   # a pristine export of HEAD while /repo is being patched by a seed evaluation
     d = tempfile.mkdtemp(prefix="coset-selftest-")
     for name in ("Cargo.toml", "Cargo.lock", "src", "examples"):
         s = os.path.join(repo, name)
